@@ -1325,6 +1325,35 @@ pub fn c08(tier: Tier, caps: &Caps) -> Vec<FamilyReport> {
         &|i| c08_after_connack_rx(&wide[(i / 2) as usize], i % 2 == 1, WIDE_RX),
         &|i| json!({"phase": "after-connack", "bytes": mr::hex(&wide[(i / 2) as usize]), "fragmented": i % 2 == 1, "rx": WIDE_RX}),
     ));
+    // a multi-byte character at every byte offset of every string a broker may send
+    let mut mb: Vec<Vec<u8>> = Vec::new();
+    for ch in ["\u{e9}", "\u{20ac}", "\u{1f600}"] {
+        for k in 0..=72usize {
+            let mut st = vec![b'a'; k];
+            st.extend_from_slice(ch.as_bytes());
+            st.extend_from_slice(b"zz");
+            let pr = |id: u8, val: PVal| Prop { id, val };
+            let publish = |topic: Vec<u8>, props: Vec<Prop>, qos: u8| SPacket::Publish { dup: false, qos, retain: false, topic, pid: if qos > 0 { Some(7) } else { None }, props, payload: vec![0x31] };
+            mb.push(publish(st.clone(), vec![], (k % 3) as u8).encode());
+            mb.push(publish(b"t".to_vec(), vec![pr(0x03, PVal::Str(st.clone()))], 0).encode());
+            mb.push(publish(b"t".to_vec(), vec![pr(0x08, PVal::Str(st.clone()))], 1).encode());
+            mb.push(publish(b"t".to_vec(), vec![pr(0x26, PVal::Pair(st.clone(), b"v".to_vec()))], 2).encode());
+            mb.push(publish(b"t".to_vec(), vec![pr(0x26, PVal::Pair(b"k".to_vec(), st.clone()))], 0).encode());
+            mb.push(SPacket::Ack { kind: AckKind::PubAck, pid: 1, reason: 0, props: vec![pr(0x1F, PVal::Str(st.clone()))], form: 2 }.encode());
+            mb.push(SPacket::SubAck { pid: 1, props: vec![pr(0x1F, PVal::Str(st.clone()))], codes: vec![0] }.encode());
+            mb.push(SPacket::Disconnect { reason: 0x8B, props: vec![pr(0x1F, PVal::Str(st.clone()))], form: 2 }.encode());
+            mb.push(SPacket::Disconnect { reason: 0x9C, props: vec![pr(0x1C, PVal::Str(st.clone()))], form: 2 }.encode());
+        }
+    }
+    out.push(sweep(
+        "C08-multi-byte-characters-at-every-offset",
+        "C08",
+        mb.len() as u64 * 2,
+        caps,
+        json!({"cases": "a 2-, 3- and 4-byte UTF-8 character at every byte offset 0..=72 of: PUBLISH topic, Content Type, Response Topic, User Property key and value, Reason String of PUBACK / SUBACK / DISCONNECT, Server Reference of DISCONNECT; each whole and byte-by-byte", "rx": WIDE_RX}),
+        &|i| c08_after_connack_rx(&mb[(i / 2) as usize], i % 2 == 1, WIDE_RX),
+        &|i| json!({"phase": "after-connack", "bytes": mr::hex(&mb[(i / 2) as usize]), "fragmented": i % 2 == 1, "rx": WIDE_RX}),
+    ));
     // the four-byte band of the remaining length: a receive buffer of just over 2 MiB
     const HUGE_RX: usize = 2_097_152 + 64;
     let huge_rems = [2_097_151usize, 2_097_152, 2_097_153, 2_097_200];
